@@ -60,7 +60,25 @@ def evaluate(v: Variant, root: str) -> dict:
         return {"variant": v.name, "expected": v.expect, "got": "skipped (anchor text not in the tree)", "ok": True, "skipped": True}
     import ast as _ast
 
+    def _dups(tree_) -> set:
+        out_ = set()
+        for c_ in _ast.walk(tree_):
+            if isinstance(c_, _ast.ClassDef):
+                names_ = [f_.name for f_ in c_.body if isinstance(f_, (_ast.FunctionDef, _ast.AsyncFunctionDef)) and not any(
+                    (getattr(d_, "id", None) or getattr(d_, "attr", None)) in ("overload", "setter", "getter", "deleter") for d_ in f_.decorator_list)]
+                out_ |= {(c_.name, n_) for n_ in names_ if names_.count(n_) > 1}
+        return out_
+
     for rel_, src_ in srcs.items():
+        try:
+            t_new = _ast.parse(src_)
+            with open(os.path.join(root, rel_), encoding="utf-8") as fh_:
+                t_old = _ast.parse(fh_.read())
+            if _dups(t_new) - _dups(t_old):
+                # the variant adds a method the analysed tree already defines (a later definition would shadow it): the control cannot be built here
+                return {"variant": v.name, "expected": v.expect, "got": f"skipped (the tree already defines what the variant adds: {sorted(_dups(t_new) - _dups(t_old))[0]})", "ok": True, "skipped": True}
+        except SyntaxError:
+            pass
         try:
             _ast.parse(src_)
         except SyntaxError:
